@@ -513,7 +513,7 @@ func form(v any, f string) any {
 
 func Run(cs Case, c *vrt.Ctx) {
 	a := wx.Dec(cs.A)
-	b := a
+	b := wx.Dec(cs.A) // decoded again: equal times in a zone have a *time.Location of their own on each side
 	for _, e := range cs.Edits {
 		b = apply(b, e.Path, e.Op, wx.Dec(e.Val))
 	}
@@ -778,7 +778,8 @@ func drawEdits(t *rapid.T, v any, max int, label string) []Edit {
 var t0 = time.Date(2021, 3, 4, 5, 6, 7, 0, time.UTC)
 
 // times within and beyond alt.TimeTolerance (a millisecond) of t0
-var timePool = []time.Time{t0, t0.Add(100 * time.Microsecond), t0.Add(-400 * time.Microsecond), t0.Add(2 * time.Millisecond), t0.Add(time.Hour)}
+var timePool = []time.Time{t0, t0.Add(100 * time.Microsecond), t0.Add(-400 * time.Microsecond), t0.Add(2 * time.Millisecond), t0.Add(time.Hour),
+	t0.In(time.FixedZone("", 19800)), t0.In(time.FixedZone("", 19800)), t0.Add(300 * time.Microsecond).In(time.FixedZone("", 19800)), t0.In(time.FixedZone("", -3600)), t0.Add(time.Hour).In(time.FixedZone("", 19800))}
 
 // twin gives a number of the other numeric kind that is equal or very close.
 func twin(v any) (any, bool) {
@@ -801,7 +802,13 @@ func drawCase(t *rapid.T) Case {
 		paths(a, nil, &ps)
 		if len(ps) > 0 {
 			timeAt = ps[rapid.IntRange(0, len(ps)-1).Draw(t, "timepath")]
-			a = apply(a, timeAt, "set", t0)
+			// half of the times are in a zone: each side then has a *time.Location of its own
+			// for the same zone (the trees are decoded separately), which is no difference
+			base := t0
+			if rapid.Bool().Draw(t, "zoned") {
+				base = t0.In(time.FixedZone("", 19800))
+			}
+			a = apply(a, timeAt, "set", base)
 		}
 	}
 	cs := Case{A: wx.Enc(a), Form: rapid.SampledFrom([]string{"simple", "simple", "gen"}).Draw(t, "form")}
